@@ -286,6 +286,22 @@ def _border_style_returns_current_year(m) -> bool:
     return ok
 
 
+def _flatten_fstr(parts) -> list:
+    out: list = []
+    for x in parts:
+        if isinstance(x, tuple) and x and x[0] == "fstr":
+            for y in _flatten_fstr(x[1]):
+                if isinstance(y, str) and out and isinstance(out[-1], str):
+                    out[-1] += y
+                else:
+                    out.append(y)
+        elif isinstance(x, str) and out and isinstance(out[-1], str):
+            out[-1] += x
+        else:
+            out.append(x)
+    return out
+
+
 class _Case:
     """One case of a returning path whose value is a conditional: the path's conditions plus the case's own."""
 
@@ -331,11 +347,13 @@ def _check_formula_builder(rep: Report, rule: str, fr, fi, kind: str) -> None:
         row_of = lambda p: p.vars.get("row", (None,))[0]  # noqa: E731
         rep.check(len(bare) == 1, rule, fi.module, fi.qualname, "no recorded first row for (asset, year) => bare value (no link, no KeyError)", "the summary link builder has no path that returns the bare value when (asset, year) has no recorded row: with a from-date later than the asset's last event of that year the lookup fails", loc(fi.node))
     for p in formulas:
-        parts = list(p.ret[1])
+        parts = _flatten_fstr(p.ret[1])  # a formula assembled from an inner f-string (the link target built first) is the same text
         row = row_of(p)
         numeric = any("isinstance(value" in show(c) and not show(c).startswith("not ") for c in p.conds())
         lits = [x for x in parts if isinstance(x, str)]
         terms = [x for x in parts if not isinstance(x, str)]
+        if row is None and len(terms) == 4:
+            row = terms[1]  # no local named `row` (the lookup is passed straight to a helper): the row is whatever stands after '.a', and must stand after ':z' too
         want_lits = ['=HYPERLINK("#', ".a", ":z", '"; ', ")"] if numeric else ['=HYPERLINK("#', ".a", ":z", '"; "', '")']
         ok_l = lits == want_lits
         ok_t = len(terms) == 4 and tkey(terms[0]) == tkey(sheet) and row is not None and tkey(terms[1]) == tkey(row) and tkey(terms[2]) == tkey(row) and terms[3] == ("sym", "value")
